@@ -83,6 +83,121 @@ pub fn gen_cfg(rng: &mut Rng) -> Value {
     }
 }
 
+/// the options of `cfg` (nested JSON, sections of `#[serde(default)]` structs) whose value differs from the default
+/// configuration, as ("section.key", value), sorted
+pub fn nondefault_opts(cfg: &Value) -> Vec<(String, Value)> {
+    let dflt = serde_json::to_value(LuaFormatConfig::default()).unwrap_or(json!({}));
+    let mut out = Vec::new();
+    if let Some(secs) = cfg.as_object() {
+        for (sec, vals) in secs {
+            if let Some(kv) = vals.as_object() {
+                for (k, v) in kv {
+                    if dflt.get(sec).and_then(|d| d.get(k)) != Some(v) {
+                        out.push((format!("{sec}.{k}"), v.clone()));
+                    }
+                }
+            }
+        }
+    }
+    out.sort_by(|a, b| a.0.cmp(&b.0));
+    out
+}
+
+/// the configuration that is the default one except for `opts`
+pub fn cfg_of_opts(opts: &[(String, Value)]) -> Value {
+    let mut root = serde_json::Map::new();
+    for (name, v) in opts {
+        let (sec, key) = name.split_once('.').unwrap_or((name.as_str(), ""));
+        let e = root.entry(sec.to_string()).or_insert_with(|| json!({}));
+        if let Some(m) = e.as_object_mut() {
+            m.insert(key.to_string(), v.clone());
+        }
+    }
+    Value::Object(root)
+}
+
+/// "cfg[a.b=1,c.d=Omit]" or "default"
+pub fn opts_label(opts: &[(String, Value)]) -> String {
+    if opts.is_empty() {
+        return "default".to_string();
+    }
+    let parts: Vec<String> = opts
+        .iter()
+        .map(|(k, v)| format!("{}={}", k, match v { Value::String(s) => s.clone(), other => other.to_string() }))
+        .collect();
+    format!("cfg[{}]", parts.join(","))
+}
+
+/// delta debugging: drop pieces while `still` holds; `budget` bounds the number of tests
+pub fn ddmin<T: Clone>(mut pieces: Vec<T>, still: &dyn Fn(&[T]) -> bool, budget: &mut usize, allow_empty: bool) -> Vec<T> {
+    let mut chunk = (pieces.len() / 2).max(1);
+    loop {
+        let mut i = 0;
+        let mut progressed = false;
+        while i < pieces.len() && *budget > 0 {
+            let end = (i + chunk).min(pieces.len());
+            let mut cand = pieces.clone();
+            cand.drain(i..end);
+            *budget -= 1;
+            if (allow_empty || !cand.is_empty()) && still(&cand) {
+                pieces = cand;
+                progressed = true;
+            } else {
+                i += chunk;
+            }
+        }
+        if *budget == 0 || pieces.is_empty() || (chunk == 1 && !progressed) {
+            break;
+        }
+        if !progressed {
+            chunk = (chunk / 2).max(1);
+        }
+    }
+    pieces
+}
+
+/// The cause of a violation as far as it can be determined mechanically: the minimal set of non-default options under
+/// which `class_of(configuration)` still yields a violation of class `class` on this input (`class_of` returns the
+/// (class, construct) pairs of the violations).  Signature: "cfg[opt=value,...]:class" or, when the default configuration
+/// reproduces it, "default:class:construct".
+pub fn narrow_signature(cfg: &Value, class: &str, class_of: &dyn Fn(&Value) -> Vec<(String, String)>) -> (Value, String) {
+    let opts = nondefault_opts(cfg);
+    let has = |c: &Value| -> Option<String> { class_of(c).into_iter().find(|(k, _)| k == class).map(|(_, cons)| cons) };
+    if let Some(cons) = has(&json!({})) {
+        return (json!({}), format!("default:{}{}{}", class, if cons.is_empty() { "" } else { ":" }, cons));
+    }
+    let still = |sub: &[(String, Value)]| -> bool { has(&cfg_of_opts(sub)).is_some() };
+    let mut budget = 160usize;
+    let min = ddmin(opts, &still, &mut budget, false);
+    (cfg_of_opts(&min), format!("{}:{}", opts_label(&min), class))
+}
+
+/// "Token<Parent<Grandparent<..." -> "Parent<Grandparent": the construct a position lies in
+pub fn construct_of(chain: &str) -> String {
+    let parts: Vec<&str> = chain.split('<').collect();
+    if parts.len() <= 1 {
+        return chain.to_string();
+    }
+    parts[1..parts.len().min(3)].join("<")
+}
+
+/// token kind < parent kinds at the k-th non-blank character of a text (used for comments)
+pub fn nonblank_context(raw: &str, k: usize) -> String {
+    let mut seen = 0usize;
+    let mut off = raw.len();
+    for (i, c) in raw.char_indices() {
+        if !is_blank(c) {
+            if seen == k {
+                off = i;
+                break;
+            }
+            seen += 1;
+        }
+    }
+    let t = parse(raw);
+    context_at(&t, off)
+}
+
 /// the part of a configuration the printer reads (Printer::new)
 pub fn printer_cfg(cfg: &LuaFormatConfig) -> Value {
     json!({
